@@ -572,3 +572,199 @@ Proof.
         destruct (S k - length b <=? length (concat bs)) eqn:E3, (S k <=? length b + length (concat bs)) eqn:E4;
           try reflexivity; [apply Nat.leb_le in E3; apply Nat.leb_gt in E4; lia | apply Nat.leb_gt in E3; apply Nat.leb_le in E4; lia].
 Qed.
+
+(* ------------------------------------------------------------------ one pass, then any sequence of passes *)
+
+Definition items_of (o : out N (list N)) : list (list N) := fst (fst o).
+Definition calm (o : out N (list N)) : bool :=
+  match snd (fst o) with Done | More => true | _ => false end.
+
+Lemma render0 l : map (render 0) l = l.
+Proof. apply map_id. Qed.
+
+Lemma render1 l : map (render 1) l = map rdw_rec l.
+Proof. reflexivity. Qed.
+
+Lemma ended_calm k n : ended k n = Done \/ ended k n = More.
+Proof. unfold ended. destruct (k <=? n); [right|left]; reflexivity. Qed.
+
+Lemma w01 w : (w <=? 1)%N = true -> w = 0%N \/ w = 1%N.
+Proof. intros H. apply N.leb_le in H. lia. Qed.
+
+Definition wanted {X} (k : option nat) (l : list X) : nat := match k with Some n => n | None => length l end.
+
+Lemma V_pass_ok kind w k rs : (w <=? 1)%N = true ->
+  exists f, V_pass kind (w, k) (write_V rs)
+            = (map (render w) (firstn (wanted k rs) rs), f, write_V (skipn (wanted k rs) rs))
+            /\ (f = Done \/ f = More).
+Proof.
+  intros Hw. pose proof (write_V_length rs) as HL.
+  destruct (w01 w Hw) as [-> | ->]; destruct k as [n|]; unfold V_pass, wanted; cbn [N.eqb Pos.eqb].
+  - rewrite V_take_ok by lia. unfold payloads. rewrite map_snd_hdr, render0. eexists; split; [reflexivity|apply ended_calm].
+  - rewrite V_record_iter_ok, firstn_all, skipn_all, render0. eexists; split; [reflexivity|left; reflexivity].
+  - rewrite V_take_ok by lia. unfold with_rdw. rewrite map_cat_hdr. eexists; split; [reflexivity|apply ended_calm].
+  - rewrite V_rdw_iter_ok, firstn_all, skipn_all. eexists; split; [reflexivity|left; reflexivity].
+Qed.
+
+Lemma V_passes_ok kind : forall ps rs e, expect_passes ps rs = Some e ->
+  map items_of (run_passes (V_pass kind) ps (write_V rs)) = e
+  /\ forallb calm (run_passes (V_pass kind) ps (write_V rs)) = true.
+Proof.
+  induction ps as [|[w k] ps IH]; intros rs e He.
+  - cbn in He. injection He as <-. split; reflexivity.
+  - cbn [expect_passes] in He. destruct (w <=? 1)%N eqn:Hw; [|discriminate].
+    fold (wanted k rs) in He.
+    destruct (expect_passes ps (skipn (wanted k rs) rs)) as [e'|] eqn:He'; [|discriminate].
+    cbn in He. injection He as <-.
+    destruct (V_pass_ok kind w k rs Hw) as (f & Hp & Hf).
+    cbn [run_passes]. rewrite Hp. cbn [snd map forallb].
+    destruct (IH _ _ He') as [H1 H2]. rewrite H1, H2.
+    split; [reflexivity|]. unfold calm. cbn [fst snd]. destruct Hf as [-> | ->]; reflexivity.
+Qed.
+
+Lemma F_pass_ok kind lrecl w k (rs : list (list N)) :
+  legal_F lrecl rs = true -> (N.of_nat lrecl + 4 <= max_hdr)%N -> (w <=? 1)%N = true ->
+  exists f, F_pass kind (Z.of_nat lrecl) (w, k) (write_F rs)
+            = (map (render w) (firstn (wanted k rs) rs), f, write_F (skipn (wanted k rs) rs))
+            /\ (f = Done \/ f = More).
+Proof.
+  intros HL Hh Hw. pose proof (legal_F_pos _ _ HL) as [Hl Hrs]. pose proof (legal_F_len lrecl rs Hl Hrs) as Hlen.
+  assert (E : (Z.of_nat lrecl =? 0)%Z = false) by lia.
+  destruct (w01 w Hw) as [-> | ->]; destruct k as [[|n]|]; unfold F_pass, wanted, write_F in *; cbn [N.eqb Pos.eqb]; try rewrite E.
+  - eexists; split; [reflexivity|right; reflexivity].
+  - rewrite F_take_ok by (try assumption; lia). rewrite render0. eexists; split; [reflexivity|apply ended_calm].
+  - fold (write_F rs). rewrite (F_record_iter_ok kind lrecl rs HL), firstn_all, skipn_all, render0.
+    eexists; split; [reflexivity|left; reflexivity].
+  - eexists; split; [reflexivity|right; reflexivity].
+  - rewrite F_rdw_take_ok by (try assumption; lia). eexists; split; [reflexivity|apply ended_calm].
+  - fold (write_F rs). rewrite (F_rdw_iter_ok kind lrecl rs HL Hh), firstn_all, skipn_all.
+    eexists; split; [reflexivity|left; reflexivity].
+Qed.
+
+Lemma legal_F_skipn lrecl n (rs : list (list N)) : legal_F lrecl rs = true -> legal_F lrecl (skipn n rs) = true.
+Proof.
+  unfold legal_F. intros H. apply andb_prop in H as [H1 H2]. rewrite H1. cbn [andb].
+  rewrite <- (firstn_skipn n rs), forallb_app in H2. apply andb_prop in H2 as [_ H2]. exact H2.
+Qed.
+
+Lemma F_passes_ok kind lrecl : (N.of_nat lrecl + 4 <= max_hdr)%N -> forall ps (rs : list (list N)) e,
+  legal_F lrecl rs = true -> expect_passes ps rs = Some e ->
+  map items_of (run_passes (F_pass kind (Z.of_nat lrecl)) ps (write_F rs)) = e
+  /\ forallb calm (run_passes (F_pass kind (Z.of_nat lrecl)) ps (write_F rs)) = true.
+Proof.
+  intros Hh. induction ps as [|[w k] ps IH]; intros rs e HL He.
+  - cbn in He. injection He as <-. split; reflexivity.
+  - cbn [expect_passes] in He. destruct (w <=? 1)%N eqn:Hw; [|discriminate].
+    fold (wanted k rs) in He.
+    destruct (expect_passes ps (skipn (wanted k rs) rs)) as [e'|] eqn:He'; [|discriminate].
+    cbn in He. injection He as <-.
+    destruct (F_pass_ok kind lrecl w k rs HL Hh Hw) as (f & Hp & Hf).
+    cbn [run_passes]. rewrite Hp. cbn [snd map forallb].
+    destruct (IH _ _ (legal_F_skipn lrecl (wanted k rs) rs HL) He') as [H1 H2]. rewrite H1, H2.
+    split; [reflexivity|]. unfold calm. cbn [fst snd]. destruct Hf as [-> | ->]; reflexivity.
+Qed.
+
+Lemma split_blocks_app : forall bs k now later, split_blocks k bs = Some (now, later) -> bs = now ++ later.
+Proof.
+  induction bs as [|b bs IH]; intros k now later H.
+  - cbn in H. injection H as <- <-. reflexivity.
+  - cbn [split_blocks] in H. destruct (k =? 0); [injection H as <- <-; reflexivity|].
+    destruct (length b <=? k); [|discriminate].
+    destruct (split_blocks (k - length b) bs) as [[x y]|] eqn:E; [|discriminate].
+    cbn in H. injection H as <- <-. cbn [app]. f_equal. eapply IH; eassumption.
+Qed.
+
+Lemma legal_VB_app_r a b : legal_VB (a ++ b) = true -> legal_VB b = true.
+Proof. unfold legal_VB. rewrite forallb_app. intros H. apply andb_prop in H as [_ H]. exact H. Qed.
+
+Lemma VB_pass_ok kind w k bs : legal_VB bs = true ->
+  if (w <=? 1)%N then
+    forall now later, match k with Some n => split_blocks n bs | None => Some (bs, []) end = Some (now, later) ->
+    exists f, VB_pass kind (w, k) (write_VB bs) = (map (render w) (concat now), f, write_VB later) /\ (f = Done \/ f = More)
+  else
+    exists f, VB_pass kind (w, k) (write_VB bs)
+              = (map write_block (firstn (wanted k bs) bs), f, write_VB (skipn (wanted k bs) bs))
+              /\ (f = Done \/ f = More).
+Proof.
+  intros HL. pose proof (write_VB_length bs) as Hlen.
+  destruct (w <=? 1)%N eqn:Hw.
+  - intros now later Hs.
+    destruct (w01 w Hw) as [-> | ->]; destruct k as [n|]; unfold VB_pass; cbn [N.eqb Pos.eqb].
+    + rewrite (VB_take_ok kind bs _ n now later) by (try assumption; lia).
+      unfold payloads. rewrite map_snd_hdr, render0. eexists; split; [reflexivity|apply ended_calm].
+    + injection Hs as <- <-. rewrite VB_record_iter_ok by assumption. rewrite render0.
+      eexists; split; [reflexivity|left; reflexivity].
+    + rewrite (VB_take_ok kind bs _ n now later) by (try assumption; lia).
+      unfold with_rdw. rewrite map_cat_hdr. eexists; split; [reflexivity|apply ended_calm].
+    + injection Hs as <- <-. rewrite VB_rdw_iter_ok by assumption.
+      eexists; split; [reflexivity|left; reflexivity].
+  - assert (H0 : (w =? 0)%N = false) by (apply N.leb_gt in Hw; lia).
+    assert (H1 : (w =? 1)%N = false) by (apply N.leb_gt in Hw; lia).
+    unfold VB_pass, wanted. rewrite H0, H1. destruct k as [n|].
+    + rewrite B_take_ok by lia. eexists; split; [reflexivity|apply ended_calm].
+    + rewrite VB_bdw_iter_ok, firstn_all, skipn_all. eexists; split; [reflexivity|left; reflexivity].
+Qed.
+
+Lemma VB_passes_ok kind : forall ps bs e, legal_VB bs = true -> expect_passes_VB ps bs = Some e ->
+  map items_of (run_passes (VB_pass kind) ps (write_VB bs)) = e
+  /\ forallb calm (run_passes (VB_pass kind) ps (write_VB bs)) = true.
+Proof.
+  induction ps as [|[w k] ps IH]; intros bs e HL He.
+  - cbn in He. injection He as <-. split; reflexivity.
+  - cbn [expect_passes_VB] in He. pose proof (VB_pass_ok kind w k bs HL) as HP.
+    destruct (w <=? 1)%N eqn:Hw.
+    + destruct k as [n|].
+      * destruct (split_blocks n bs) as [[now later]|] eqn:Es; [|discriminate].
+        destruct (expect_passes_VB ps later) as [e'|] eqn:He'; [|discriminate].
+        cbn in He. injection He as <-.
+        destruct (HP now later eq_refl) as (f & Hp & Hf).
+        cbn [run_passes]. rewrite Hp. cbn [snd map forallb].
+        assert (HL' : legal_VB later = true).
+        { apply (legal_VB_app_r now). rewrite <- (split_blocks_app bs n now later Es). exact HL. }
+        destruct (IH _ _ HL' He') as [H1 H2]. rewrite H1, H2.
+        split; [reflexivity|]. unfold calm. cbn [fst snd]. destruct Hf as [-> | ->]; reflexivity.
+      * destruct (expect_passes_VB ps []) as [e'|] eqn:He'; [|discriminate].
+        cbn in He. injection He as <-.
+        destruct (HP bs [] eq_refl) as (f & Hp & Hf).
+        cbn [run_passes]. rewrite Hp. cbn [snd map forallb].
+        destruct (IH _ _ (eq_refl : legal_VB [] = true) He') as [H1 H2]. rewrite H1, H2.
+        split; [reflexivity|]. unfold calm. cbn [fst snd]. destruct Hf as [-> | ->]; reflexivity.
+    + fold (wanted k bs) in He.
+      destruct (expect_passes_VB ps (skipn (wanted k bs) bs)) as [e'|] eqn:He'; [|discriminate].
+      cbn in He. injection He as <-.
+      destruct HP as (f & Hp & Hf).
+      cbn [run_passes]. rewrite Hp. cbn [snd map forallb].
+      assert (HL' : legal_VB (skipn (wanted k bs) bs) = true).
+      { apply (legal_VB_app_r (firstn (wanted k bs) bs)). rewrite firstn_skipn. exact HL. }
+      destruct (IH _ _ HL' He') as [H1 H2]. rewrite H1, H2.
+      split; [reflexivity|]. unfold calm. cbn [fst snd]. destruct Hf as [-> | ->]; reflexivity.
+Qed.
+
+(* the resume statements in their plainest form: k = the number of records (blocks) of the first part *)
+Lemma V_resume kind rs1 rs2 :
+  V_take (S (length (write_V (rs1 ++ rs2)))) (length rs1) kind (write_V (rs1 ++ rs2))
+  = (map hdr_pair rs1, More, write_V rs2).
+Proof.
+  pose proof (write_V_length (rs1 ++ rs2)). rewrite V_take_ok by lia.
+  rewrite firstn_exact, skipn_exact. unfold ended. rewrite app_length.
+  destruct (length rs1 <=? length rs1 + length rs2) eqn:E; [reflexivity|apply Nat.leb_gt in E; lia].
+Qed.
+
+Lemma F_resume {A} kind lrecl (rs1 rs2 : list (list A)) : legal_F lrecl (rs1 ++ rs2) = true ->
+  F_take (S (length (write_F (rs1 ++ rs2)))) (length rs1) kind (Z.of_nat lrecl) (write_F (rs1 ++ rs2))
+  = (rs1, More, write_F rs2).
+Proof.
+  intros HL. apply legal_F_pos in HL as [Hl H]. pose proof (legal_F_len lrecl _ Hl H). unfold write_F in *.
+  rewrite F_take_ok by (try assumption; lia).
+  rewrite firstn_exact, skipn_exact. unfold ended. rewrite app_length.
+  destruct (length rs1 <=? length rs1 + length rs2) eqn:E; [reflexivity|apply Nat.leb_gt in E; lia].
+Qed.
+
+Lemma VB_bdw_resume kind bs1 bs2 :
+  B_take (S (length (write_VB (bs1 ++ bs2)))) (length bs1) kind (write_VB (bs1 ++ bs2))
+  = (map write_block bs1, More, write_VB bs2).
+Proof.
+  pose proof (write_VB_length (bs1 ++ bs2)). rewrite B_take_ok by lia.
+  rewrite firstn_exact, skipn_exact. unfold ended. rewrite app_length.
+  destruct (length bs1 <=? length bs1 + length bs2) eqn:E; [reflexivity|apply Nat.leb_gt in E; lia].
+Qed.
